@@ -51,6 +51,24 @@ struct OriginDisplacementFitsIn;
 
 template <typename FromRep, typename ToRep>
 struct IntermediateRep;
+
+// Whether a `QuantityPoint<Unit, Rep>` should be implicitly constructible from a
+// `QuantityPoint<OtherUnit, OtherRep>` (see the comments in `QuantityPoint` below).
+//
+// The answer for units of different dimensions is simply "no".  We must not even _form_ the sum
+// below in that case: it is ill-formed, and would turn a question such as `std::is_convertible` into
+// a hard error instead of `false`.
+template <typename Unit,
+          typename Rep,
+          typename OtherUnit,
+          typename OtherRep,
+          bool = HasSameDimension<Unit, OtherUnit>::value>
+struct ImplicitPointConstructionIsOk : std::false_type {};
+template <typename Unit, typename Rep, typename OtherUnit, typename OtherRep>
+struct ImplicitPointConstructionIsOk<Unit, Rep, OtherUnit, OtherRep, true>
+    : std::is_convertible<decltype(std::declval<Quantity<OtherUnit, OtherRep>>() +
+                                   origin_displacement(Unit{}, OtherUnit{})),
+                          Quantity<Unit, Rep>> {};
 }  // namespace detail
 
 // QuantityPoint implementation and API elaboration.
@@ -72,10 +90,7 @@ class QuantityPoint {
     //      OK : QuantityPoint<Celsius, int> -> QuantityPoint<Milli<Kelvins>, int>
     template <typename OtherUnit, typename OtherRep>
     static constexpr bool should_enable_implicit_construction_from() {
-        return std::is_convertible<
-            decltype(std::declval<typename QuantityPoint<OtherUnit, OtherRep>::Diff>() +
-                     origin_displacement(UnitT{}, OtherUnit{})),
-            QuantityPoint::Diff>::value;
+        return detail::ImplicitPointConstructionIsOk<UnitT, RepT, OtherUnit, OtherRep>::value;
     }
 
     // This machinery exists to give us a conditionally explicit constructor, using SFINAE to select
